@@ -65,3 +65,67 @@ package atree
 //@   ensures[C09] err == nil ==> sto[childID] == nil && sto[hdrOf(a.root).slabID] == a.root
 //@   ensures[C01 C03] err == nil ==> has(stored, a.root)
 //@   modifies a.root, ArrayDataSlab.header, ArrayDataSlab.extraData, ArrayMetaDataSlab.header, ArrayMetaDataSlab.extraData, ghost.sto, ghost.stored, ghost.touched, alloc
+
+//@ # ---- notification protocol (C10) and root identity (C01) at the container level
+
+//@ # the root slab of a is ready for a positional operation (assumed: tree invariant at the root)
+//@ pred rootReady(a *Array) = a.Storage != nil && isArr(a.root) &&
+//@      (is(a.root, *ArrayDataSlab) ==> wfADS(as(a.root, *ArrayDataSlab)) && elemsFit(as(a.root, *ArrayDataSlab)) &&
+//@           as(a.root, *ArrayDataSlab).header.size <= maxThreshold && as(a.root, *ArrayDataSlab).extraData != nil &&
+//@           (!as(a.root, *ArrayDataSlab).inlined ==> sto[as(a.root, *ArrayDataSlab).header.slabID] == a.root && as(a.root, *ArrayDataSlab).header.slabID != SlabIDUndefined)) &&
+//@      (is(a.root, *ArrayMetaDataSlab) ==> wfMeta(as(a.root, *ArrayMetaDataSlab)) && metaLinked(as(a.root, *ArrayMetaDataSlab)) &&
+//@           len(as(a.root, *ArrayMetaDataSlab).childrenHeaders) >= 2 && as(a.root, *ArrayMetaDataSlab).header.size <= maxThreshold &&
+//@           as(a.root, *ArrayMetaDataSlab).extraData != nil)
+
+//@ func (a *Array) set(index, value) (existing, err)  serves C01 C10
+//@   requires value != nil
+//@   assume rootReady(a) because "tree invariant at the root (composition)"
+//@   ensures[C10] err == nil ==> notified > old(notified)
+//@   modifies heap, ghost.sto, ghost.stored, ghost.touched, ghost.notified, alloc
+
+//@ func (a *Array) Insert(index, value) (err)  serves C01 C10 C18
+//@   requires value != nil
+//@   assume rootReady(a) because "tree invariant at the root (composition)"
+//@   ensures[C10] err == nil ==> notified > old(notified)
+//@   ensures[C18] old(hdrOf(a.root).count) == 4294967295 ==> err != nil && isUser(err) && a.root == old(a.root) && sto == old(sto) && touched == old(touched)
+//@   modifies heap, ghost.sto, ghost.stored, ghost.touched, ghost.notified, alloc
+
+//@ func (a *Array) remove(index) (v, err)  serves C01 C10
+//@   assume rootReady(a) because "tree invariant at the root (composition)"
+//@   ensures[C10] err == nil ==> notified > old(notified)
+//@   modifies heap, ghost.sto, ghost.stored, ghost.touched, ghost.notified, alloc
+
+//@ func (a *Array) SetType(typeInfo) (err)  serves C01 C03 C10
+//@   requires a.Storage != nil && isArr(a.root)
+//@   requires ite(is(a.root, *ArrayDataSlab), as(a.root, *ArrayDataSlab).extraData != nil, as(a.root, *ArrayMetaDataSlab).extraData != nil)
+//@   ensures[C10] err == nil && old(ite(is(a.root, *ArrayDataSlab), as(a.root, *ArrayDataSlab).inlined, false)) ==> notified > old(notified)
+//@   ensures[C01 C03] err == nil && !old(ite(is(a.root, *ArrayDataSlab), as(a.root, *ArrayDataSlab).inlined, false)) ==> has(stored, a.root)
+//@   modifies heap, ghost.sto, ghost.stored, ghost.touched, ghost.notified, alloc
+
+//@ # ---- child-index tracking (C10/C11): entries at or after an insertion point move up, entries after a removal point move down
+//@ func (a *Array) incrementIndexFrom(index) (err)  serves C10 C11
+//@   ensures err == nil ==> (forall id ValueID :: has(a.mutableElementIndex, id) == old(has(a.mutableElementIndex, id)) &&
+//@        (has(a.mutableElementIndex, id) ==> a.mutableElementIndex[id] == old(a.mutableElementIndex[id]) + ite(old(a.mutableElementIndex[id]) >= index, 1, 0)))
+//@   ensures err != nil ==> isFatal(err)
+//@   modifies a.mutableElementIndex, alloc
+//@   loop 1: invariant (forall id ValueID :: has(a.mutableElementIndex, id) == old(has(a.mutableElementIndex, id)) &&
+//@        (has(a.mutableElementIndex, id) ==> a.mutableElementIndex[id] == old(a.mutableElementIndex[id]) + ite(has(seen, id) && old(a.mutableElementIndex[id]) >= index, 1, 0)))
+
+//@ func (a *Array) decrementIndexFrom(index) (err)  serves C10 C11
+//@   ensures err == nil ==> (forall id ValueID :: has(a.mutableElementIndex, id) == old(has(a.mutableElementIndex, id)) &&
+//@        (has(a.mutableElementIndex, id) ==> a.mutableElementIndex[id] == old(a.mutableElementIndex[id]) - ite(old(a.mutableElementIndex[id]) > index, 1, 0)))
+//@   ensures err != nil ==> isFatal(err)
+//@   modifies a.mutableElementIndex, alloc
+//@   loop 1: invariant (forall id ValueID :: has(a.mutableElementIndex, id) == old(has(a.mutableElementIndex, id)) &&
+//@        (has(a.mutableElementIndex, id) ==> a.mutableElementIndex[id] == old(a.mutableElementIndex[id]) - ite(has(seen, id) && old(a.mutableElementIndex[id]) > index, 1, 0)))
+
+//@ iface WrapperValue.UnwrapAtreeValue() (v, size)
+//@   pure
+
+//@ iface WrapperStorable.UnwrapAtreeStorable() (s)
+//@   pure
+
+//@ # registering a child handle: records the child's index and installs the updater closure on the child; nothing else changes
+//@ func (a *Array) setCallbackWithChild(i, child, maxInlineSize)  serves C10 C11
+//@   ensures forall vid ValueID :: has(a.mutableElementIndex, vid) && a.mutableElementIndex[vid] != i ==> old(has(a.mutableElementIndex, vid)) && a.mutableElementIndex[vid] == old(a.mutableElementIndex[vid])
+//@   modifies a.mutableElementIndex, Array.parentUpdater, OrderedMap.parentUpdater, alloc
